@@ -77,7 +77,7 @@ def main():
         'hooks': {
             'guard': 'KIRILLOCHNEV_MUSTACHE_VERIF',
             'enable': 'checks compile /repo/src/mustache/**/*.cpp themselves with -DKIRILLOCHNEV_MUSTACHE_VERIF (lib/vlib.py build_lib)',
-            'baseline_off_cmd': 'cmake --build /repo/_build && /repo/_build/bin/mustache_test',
+            'baseline_off_cmd': 'cmake --build /repo/_build --clean-first -j16 && /repo/_build/bin/mustache_test',
             'source_commits': json.load(open(os.path.join(HERE, 'hooks.json')))['source_commits'],
             'add_only': True,
         },
